@@ -461,6 +461,15 @@ var c20Shapes = []struct {
 	{"custom", func() *jen.Statement {
 		return jen.Var().Id("c").Op("=").Custom(jen.Options{Open: "[]int{", Close: "}", Separator: ",", Multi: true}, jen.Lit(1), jen.Lit(2))
 	}, c20TopLevel},
+	{"starts-with-line", func() *jen.Statement { return jen.Line().Id("c").Op("=").Id("d") }, func(in *jen.Statement) jen.Code {
+		return jen.Func().Id("f").Params().Block(jen.Id("a").Op("=").Id("b").Add(in))
+	}},
+	{"line-inside", func() *jen.Statement { return jen.Id("c").Op("=").Id("d").Line().Id("e").Op("=").Id("g") }, c20InFunc},
+	{"comment-with-trailing-newline-last", func() *jen.Statement {
+		return jen.Id("a").Op("=").Id("b").Comment("see the manual\n")
+	}, c20InFunc},
+	{"line-comment-last", func() *jen.Statement { return jen.Id("a").Op("=").Id("b").Comment("why") }, c20InFunc},
+	{"raw-block-comment-last", func() *jen.Statement { return jen.Id("a").Op("=").Id("b").Comment("/* inline */") }, c20InFunc},
 	{"null-and-empty", func() *jen.Statement {
 		return jen.Var().Id("e").Op("=").Id("s").Index(jen.Empty(), jen.Lit(2)).Add(jen.Null()).Add(nil)
 	}, c20TopLevel},
@@ -509,6 +518,22 @@ func c20ShapeCases(r *mon.Run) {
 					r.Violate("clone-not-equal-original", c, "%s (NoFormat=%v): an unmodified clone — %s — renders differently from its original\n--- original ---\n%s\n--- clone ---\n%s", sh.name, noFormat, v.what, want, got)
 				}
 				r.Count("shape_clone_views_compared", 1)
+			}
+			// what is appended to a clone follows what the clone inherited, exactly as if it had been appended to a
+			// statement built like the original
+			{
+				ext := func(st *jen.Statement) *jen.Statement { return st.Op(";").Id("appendedQ").Call() }
+				var got, gotFail, want2, wantFail string
+				if p, what := mon.Guard(func() { got, gotFail = render(ext(sh.mk().Clone())) }); p {
+					gotFail = "panic: " + what
+				}
+				if p, what := mon.Guard(func() { want2, wantFail = render(ext(sh.mk())) }); p {
+					wantFail = "panic: " + what
+				}
+				if (gotFail == "") != (wantFail == "") || (gotFail == "" && got != want2) {
+					r.Violate("clone-corruption", c, "%s (NoFormat=%v): tokens appended to a clone render (%s)\n%s\nbut the same tokens appended to a statement built like the original render (%s)\n%s", sh.name, noFormat, mon.Trunc(gotFail, 100), got, mon.Trunc(wantFail, 100), want2)
+				}
+				r.Count("shape_clone_extended_compared", 1)
 			}
 			// appending to the clone leaves the original alone
 			cl := orig.Clone()
